@@ -797,9 +797,12 @@ pub fn gen07_random(seed: u64) -> EnvCase {
             _ => {
                 // list literal with computed elements: evaluated once, before any body
                 if n <= 6 {
+                    // (at most one computed element: no statement orders the evaluation of
+                    // the elements of a list literal among themselves)
                     let mut es = vec![];
-                    for x in xs.iter() {
-                        es.push(if r.chance(1, 2) { b.cb(vec![Answer::V(x.clone())], vec![]) } else { E::Lit(x.clone()) });
+                    let computed = r.usize(n.max(1));
+                    for (i, x) in xs.iter().enumerate() {
+                        es.push(if i == computed { b.cb(vec![Answer::V(x.clone())], vec![]) } else { E::Lit(x.clone()) });
                     }
                     E::List(es)
                 } else {
